@@ -76,3 +76,104 @@ pub fn note_val<T: core::fmt::Debug>(label: &str, v: &T) {
 }
 #[cfg(kani)]
 pub fn note_val<T>(_label: &str, _v: &T) {}
+
+// ---------------------------------------------------------------------------
+// symbolic *values* of the real types, each paired with its reference-model text.
+// A value is obtained by running the real checked constructor on a fully symbolic
+// subtag and keeping the Ok outcomes, so "any valid subtag" is exactly the set the
+// library itself can produce (C15 decides that this set is the UTS #35 production).
+// ---------------------------------------------------------------------------
+use crate::spec::{self, LangIdModel, Txt};
+use unic_langid_impl::subtags::{Language, Region, Script, Variant};
+use unic_langid_impl::LanguageIdentifier;
+
+pub fn any_language() -> (Language, Txt) {
+    let t = tok9();
+    note("language", &t);
+    match Language::from_bytes(t.bytes()) {
+        Ok(l) => (l, spec::info(&t).lower()),
+        Err(_) => {
+            k::assume(false);
+            unreachable!()
+        }
+    }
+}
+pub fn any_script() -> (Script, Txt) {
+    let t = tok_len(4);
+    note("script", &t);
+    match Script::from_bytes(t.bytes()) {
+        Ok(l) => (l, spec::info(&t).title()),
+        Err(_) => {
+            k::assume(false);
+            unreachable!()
+        }
+    }
+}
+pub fn any_region() -> (Region, Txt) {
+    let t = tok_range(2, 3);
+    note("region", &t);
+    match Region::from_bytes(t.bytes()) {
+        Ok(l) => (l, spec::info(&t).upper()),
+        Err(_) => {
+            k::assume(false);
+            unreachable!()
+        }
+    }
+}
+pub fn any_variant() -> (Variant, Txt) {
+    let t = tok_range(4, 8);
+    note("variant", &t);
+    match Variant::from_bytes(t.bytes()) {
+        Ok(l) => (l, spec::info(&t).lower()),
+        Err(_) => {
+            k::assume(false);
+            unreachable!()
+        }
+    }
+}
+pub fn opt_script() -> (Option<Script>, Option<Txt>) {
+    if k::bool() {
+        let (s, t) = any_script();
+        (Some(s), Some(t))
+    } else {
+        (None, None)
+    }
+}
+pub fn opt_region() -> (Option<Region>, Option<Txt>) {
+    if k::bool() {
+        let (s, t) = any_region();
+        (Some(s), Some(t))
+    } else {
+        (None, None)
+    }
+}
+
+/// any language identifier with 0..=maxv (<= 2) variants in canonical representation
+/// (sorted, unique, `None` when empty), built through the safe `const fn`
+/// `from_raw_parts_unchecked`, whose documented precondition is exactly that representation
+pub fn any_langid(maxv: usize) -> (LanguageIdentifier, LangIdModel) {
+    let (l, lt) = any_language();
+    let (s, st) = opt_script();
+    let (r, rt) = opt_region();
+    let mut m = LangIdModel { lang: lt, lang_und: spec::txt_eq(&lt, &spec::UND), script: st, region: rt, variants: [spec::NOTXT; spec::VMAX], nvariants: 0 };
+    let nv = k::u8();
+    k::assume((nv as usize) <= maxv && nv <= 2);
+    // (the `maxv` disjuncts let CBMC prune the branches a smaller bound excludes)
+    let vs: Option<Box<[Variant]>> = if nv == 0 || maxv == 0 {
+        None
+    } else if nv == 1 || maxv < 2 {
+        let (v, vt) = any_variant();
+        m.variants[0] = vt;
+        m.nvariants = 1;
+        Some(Box::new([v]))
+    } else {
+        let (v1, t1) = any_variant();
+        let (v2, t2) = any_variant();
+        k::assume(spec::txt_cmp(&t1, &t2) < 0);
+        m.variants[0] = t1;
+        m.variants[1] = t2;
+        m.nvariants = 2;
+        Some(Box::new([v1, v2]))
+    };
+    (LanguageIdentifier::from_raw_parts_unchecked(l, s, r, vs), m)
+}
